@@ -8,6 +8,8 @@ import (
 	"encoding/hex"
 	"errors"
 	"fmt"
+	zerologger "github.com/rs/zerolog/log"
+	"io"
 	"os"
 	"strings"
 	"sync"
@@ -60,6 +62,18 @@ func Init() {
 		}
 		zerolog.SetGlobalLevel(zerolog.Disabled)
 	})
+}
+
+// Verbose switches the logging of services built from now on: on = trace level (written to nowhere), off = disabled, which
+// is what every check runs with unless it says otherwise. What a request is answered must not depend on what is logged.
+func Verbose(on bool) {
+	Init()
+	if on {
+		zerologger.Logger = zerolog.New(io.Discard)
+		zerolog.SetGlobalLevel(zerolog.TraceLevel)
+		return
+	}
+	zerolog.SetGlobalLevel(zerolog.Disabled)
 }
 
 // Scratch returns a fresh scratch directory (under /dev/shm when available).
